@@ -123,6 +123,13 @@ func (p *parsedFile) getFuncAST(f string, l int) (d *ast.FuncDecl, err error) {
 
 	// Walk the AST to find the lineToByteOffset that fits the line number.
 	var lastFunc *ast.FuncDecl
+	// eol is the offset at which the next line starts. A declaration that
+	// starts on line l itself encloses the line: a frame in a one-line function
+	// `func f(a int) { g(a) }` is on the line of its func keyword.
+	eol := math.MaxInt
+	if l+1 < len(p.lineToByteOffset) {
+		eol = p.lineToByteOffset[l+1]
+	}
 	// Inspect() goes depth first. This means for example that a function like:
 	// func a() {
 	//   b := func() {}
@@ -136,6 +143,10 @@ func (p *parsedFile) getFuncAST(f string, l int) (d *ast.FuncDecl, err error) {
 			return false
 		}
 		if n == nil {
+			return true
+		}
+		if f, ok := n.(*ast.FuncDecl); ok && int(n.Pos()) >= p.lineToByteOffset[l] && int(n.Pos()) <= eol {
+			lastFunc = f
 			return true
 		}
 		if int(n.Pos()) >= p.lineToByteOffset[l] {
